@@ -125,6 +125,14 @@ def wide_raws(rng, n, tier):
 def string_raws(rng, n, tier):
     out = [[0] * n, [0x41] * n, [0x7F] * n, [0x80] * n, [0xFF] * n, [0x41, 0] + [0x80] * (n - 2), [0x41, 0xC3] + [0] * (n - 2),
            [0x20] + [0] * (n - 1)]
+    # bytes above 0x7F that happen to be well-formed in other encodings (UTF-8 two-, three-, four-byte sequences,
+    # Latin-1 letters): still not ASCII
+    for seq in ([0xC3, 0xBC], [0xC2, 0xB0], [0xE2, 0x82, 0xAC], [0xF0, 0x9F, 0x98, 0x80], [0xE9], [0xA0]):
+        for at in sorted({0, 2, max(0, n - len(seq) - 1), max(0, n - len(seq))}):
+            if at + len(seq) <= n:
+                body = [0x47, 0x72, 0x6E, 0x20, 0x41][:at] + [0x41] * max(0, at - 5)
+                out.append((body[:at] + seq + [0] * n)[:n])
+                out.append((body[:at] + seq + [0x6E] * n)[:n])
     for _ in range(300 if tier == "quick" else 6000):
         kind = rng.random()
         if kind < 0.5:
